@@ -7,7 +7,10 @@ import random
 
 DUMP_PY = r'''#!/usr/bin/env python3
 import json, os, sys
-data = {"argv": sys.argv[1:], "env": {k: v for k, v in os.environ.items() if k.startswith("SFVT_")}}
+rp = os.path.realpath
+data = {"argv": sys.argv[1:], "env": {k: v for k, v in os.environ.items() if k.startswith("SFVT_")},
+        "home_is_cwd": rp(os.environ.get("HOME", "/nonexistent")) == rp(os.getcwd()),
+        "tmpdir_ok": os.path.isdir(os.environ.get("TMPDIR", "/nonexistent")) and rp(os.environ.get("TMPDIR", "")) != rp(os.getcwd())}
 try:
     data["stdin"] = sys.stdin.read()
 except Exception as e:
@@ -16,6 +19,8 @@ with open("dump.json", "w") as f:
     json.dump(data, f, sort_keys=True)
 sys.stdout.write("STDOUT-TEXT\n")
 sys.stderr.write("STDERR-TEXT\n")
+sys.stdout.flush()
+sys.exit(int(os.environ.get("SFVT_EXIT", "0")))
 '''
 
 # string values with shell metacharacters, whitespace, quotes, unicode, empty
